@@ -628,9 +628,9 @@ theorem uncons {α : Type} {l : List α} {n : Nat} (h : l.length = n + 1) :
   | nil => simp at h
   | cons a t => exact ⟨a, t, rfl, by simpa using h⟩
 
-/-- **the array `W` left by `SHA256_Transform_sse2` is the FIPS 180-4 message schedule** -/
-theorem sse2W_eq (block : Bytes) (h : block.length = 64) :
-    sse2W block = some (Sha256.schedule block) := by
+/-- a list of 64 bytes is 64 bytes -/
+theorem bytes64 (P : Bytes → Prop) (hP : ∀ b0 b1 b2 b3 b4 b5 b6 b7 b8 b9 b10 b11 b12 b13 b14 b15 b16 b17 b18 b19 b20 b21 b22 b23 b24 b25 b26 b27 b28 b29 b30 b31 b32 b33 b34 b35 b36 b37 b38 b39 b40 b41 b42 b43 b44 b45 b46 b47 b48 b49 b50 b51 b52 b53 b54 b55 b56 b57 b58 b59 b60 b61 b62 b63 : UInt8, P [b0, b1, b2, b3, b4, b5, b6, b7, b8, b9, b10, b11, b12, b13, b14, b15, b16, b17, b18, b19, b20, b21, b22, b23, b24, b25, b26, b27, b28, b29, b30, b31, b32, b33, b34, b35, b36, b37, b38, b39, b40, b41, b42, b43, b44, b45, b46, b47, b48, b49, b50, b51, b52, b53, b54, b55, b56, b57, b58, b59, b60, b61, b62, b63]) (block : Bytes) (h : block.length = 64) :
+    P block := by
   obtain ⟨b0, t0, rfl, h0⟩ := uncons h
   obtain ⟨b1, t1, rfl, h1⟩ := uncons h0
   obtain ⟨b2, t2, rfl, h2⟩ := uncons h1
@@ -697,27 +697,41 @@ theorem sse2W_eq (block : Bytes) (h : block.length = 64) :
   obtain ⟨b63, t63, rfl, h63⟩ := uncons h62
   have ht : t63 = [] := List.eq_nil_of_length_eq_zero h63
   subst ht
-  have hl : loadBlock [b0, b1, b2, b3, b4, b5, b6, b7, b8, b9, b10, b11, b12, b13, b14, b15, b16, b17, b18, b19, b20, b21, b22, b23, b24, b25, b26, b27, b28, b29, b30, b31, b32, b33, b34, b35, b36, b37, b38, b39, b40, b41, b42, b43, b44, b45, b46, b47, b48, b49, b50, b51, b52, b53, b54, b55, b56, b57, b58, b59, b60, b61, b62, b63] = some ⟨
-      ⟨be32 b0 b1 b2 b3, be32 b4 b5 b6 b7, be32 b8 b9 b10 b11, be32 b12 b13 b14 b15⟩,
-      ⟨be32 b16 b17 b18 b19, be32 b20 b21 b22 b23, be32 b24 b25 b26 b27, be32 b28 b29 b30 b31⟩,
-      ⟨be32 b32 b33 b34 b35, be32 b36 b37 b38 b39, be32 b40 b41 b42 b43, be32 b44 b45 b46 b47⟩,
-      ⟨be32 b48 b49 b50 b51, be32 b52 b53 b54 b55, be32 b56 b57 b58 b59, be32 b60 b61 b62 b63⟩⟩ := by
-    simp only [loadBlock, List.length_cons, List.length_nil]
-    rw [if_neg (by decide)]
-    simp only [List.take_succ_cons, List.take_zero, List.drop_succ_cons, List.drop_zero, loadBswap_eq]
-    rfl
-  simp only [sse2W, hl, Option.map_some]
-  congr 1
-  generalize hy : (Y4.mk
-      ⟨be32 b0 b1 b2 b3, be32 b4 b5 b6 b7, be32 b8 b9 b10 b11, be32 b12 b13 b14 b15⟩
-      ⟨be32 b16 b17 b18 b19, be32 b20 b21 b22 b23, be32 b24 b25 b26 b27, be32 b28 b29 b30 b31⟩
-      ⟨be32 b32 b33 b34 b35, be32 b36 b37 b38 b39, be32 b40 b41 b42 b43, be32 b44 b45 b46 b47⟩
-      ⟨be32 b48 b49 b50 b51, be32 b52 b53 b54 b55, be32 b56 b57 b58 b59, be32 b60 b61 b62 b63⟩) = y
+  exact hP b0 b1 b2 b3 b4 b5 b6 b7 b8 b9 b10 b11 b12 b13 b14 b15 b16 b17 b18 b19 b20 b21 b22 b23 b24 b25 b26 b27 b28 b29 b30 b31 b32 b33 b34 b35 b36 b37 b38 b39 b40 b41 b42 b43 b44 b45 b46 b47 b48 b49 b50 b51 b52 b53 b54 b55 b56 b57 b58 b59 b60 b61 b62 b63
+
+/-- the sixteen big-endian words of a block, as the four registers `Y[0..3]` / `W[0..3]` -/
+def blockY (b0 b1 b2 b3 b4 b5 b6 b7 b8 b9 b10 b11 b12 b13 b14 b15 b16 b17 b18 b19 b20 b21 b22 b23 b24 b25 b26 b27 b28 b29 b30 b31 b32 b33 b34 b35 b36 b37 b38 b39 b40 b41 b42 b43 b44 b45 b46 b47 b48 b49 b50 b51 b52 b53 b54 b55 b56 b57 b58 b59 b60 b61 b62 b63 : UInt8) : Y4 :=
+  ⟨⟨be32 b0 b1 b2 b3, be32 b4 b5 b6 b7, be32 b8 b9 b10 b11, be32 b12 b13 b14 b15⟩,
+   ⟨be32 b16 b17 b18 b19, be32 b20 b21 b22 b23, be32 b24 b25 b26 b27, be32 b28 b29 b30 b31⟩,
+   ⟨be32 b32 b33 b34 b35, be32 b36 b37 b38 b39, be32 b40 b41 b42 b43, be32 b44 b45 b46 b47⟩,
+   ⟨be32 b48 b49 b50 b51, be32 b52 b53 b54 b55, be32 b56 b57 b58 b59, be32 b60 b61 b62 b63⟩⟩
+
+theorem loadBlock_explicit (b0 b1 b2 b3 b4 b5 b6 b7 b8 b9 b10 b11 b12 b13 b14 b15 b16 b17 b18 b19 b20 b21 b22 b23 b24 b25 b26 b27 b28 b29 b30 b31 b32 b33 b34 b35 b36 b37 b38 b39 b40 b41 b42 b43 b44 b45 b46 b47 b48 b49 b50 b51 b52 b53 b54 b55 b56 b57 b58 b59 b60 b61 b62 b63 : UInt8) :
+    loadBlock [b0, b1, b2, b3, b4, b5, b6, b7, b8, b9, b10, b11, b12, b13, b14, b15, b16, b17, b18, b19, b20, b21, b22, b23, b24, b25, b26, b27, b28, b29, b30, b31, b32, b33, b34, b35, b36, b37, b38, b39, b40, b41, b42, b43, b44, b45, b46, b47, b48, b49, b50, b51, b52, b53, b54, b55, b56, b57, b58, b59, b60, b61, b62, b63] = some (blockY b0 b1 b2 b3 b4 b5 b6 b7 b8 b9 b10 b11 b12 b13 b14 b15 b16 b17 b18 b19 b20 b21 b22 b23 b24 b25 b26 b27 b28 b29 b30 b31 b32 b33 b34 b35 b36 b37 b38 b39 b40 b41 b42 b43 b44 b45 b46 b47 b48 b49 b50 b51 b52 b53 b54 b55 b56 b57 b58 b59 b60 b61 b62 b63) := by
+  simp only [loadBlock, List.length_cons, List.length_nil]
+  rw [if_neg (by decide)]
+  simp only [List.take_succ_cons, List.take_zero, List.drop_succ_cons, List.drop_zero, loadBswap_eq]
+  rfl
+
+/-- the FIPS 180-4 schedule of a block, in groups of sixteen words: the block's words, then three
+    times `msgStep` -/
+theorem schedule_explicit (b0 b1 b2 b3 b4 b5 b6 b7 b8 b9 b10 b11 b12 b13 b14 b15 b16 b17 b18 b19 b20 b21 b22 b23 b24 b25 b26 b27 b28 b29 b30 b31 b32 b33 b34 b35 b36 b37 b38 b39 b40 b41 b42 b43 b44 b45 b46 b47 b48 b49 b50 b51 b52 b53 b54 b55 b56 b57 b58 b59 b60 b61 b62 b63 : UInt8) :
+    Sha256.schedule [b0, b1, b2, b3, b4, b5, b6, b7, b8, b9, b10, b11, b12, b13, b14, b15, b16, b17, b18, b19, b20, b21, b22, b23, b24, b25, b26, b27, b28, b29, b30, b31, b32, b33, b34, b35, b36, b37, b38, b39, b40, b41, b42, b43, b44, b45, b46, b47, b48, b49, b50, b51, b52, b53, b54, b55, b56, b57, b58, b59, b60, b61, b62, b63] =
+      (blockY b0 b1 b2 b3 b4 b5 b6 b7 b8 b9 b10 b11 b12 b13 b14 b15 b16 b17 b18 b19 b20 b21 b22 b23 b24 b25 b26 b27 b28 b29 b30 b31 b32 b33 b34 b35 b36 b37 b38 b39 b40 b41 b42 b43 b44 b45 b46 b47 b48 b49 b50 b51 b52 b53 b54 b55 b56 b57 b58 b59 b60 b61 b62 b63).lanes ++ (msgStep (blockY b0 b1 b2 b3 b4 b5 b6 b7 b8 b9 b10 b11 b12 b13 b14 b15 b16 b17 b18 b19 b20 b21 b22 b23 b24 b25 b26 b27 b28 b29 b30 b31 b32 b33 b34 b35 b36 b37 b38 b39 b40 b41 b42 b43 b44 b45 b46 b47 b48 b49 b50 b51 b52 b53 b54 b55 b56 b57 b58 b59 b60 b61 b62 b63)).lanes ++ (msgStep (msgStep (blockY b0 b1 b2 b3 b4 b5 b6 b7 b8 b9 b10 b11 b12 b13 b14 b15 b16 b17 b18 b19 b20 b21 b22 b23 b24 b25 b26 b27 b28 b29 b30 b31 b32 b33 b34 b35 b36 b37 b38 b39 b40 b41 b42 b43 b44 b45 b46 b47 b48 b49 b50 b51 b52 b53 b54 b55 b56 b57 b58 b59 b60 b61 b62 b63))).lanes ++
+        (msgStep (msgStep (msgStep (blockY b0 b1 b2 b3 b4 b5 b6 b7 b8 b9 b10 b11 b12 b13 b14 b15 b16 b17 b18 b19 b20 b21 b22 b23 b24 b25 b26 b27 b28 b29 b30 b31 b32 b33 b34 b35 b36 b37 b38 b39 b40 b41 b42 b43 b44 b45 b46 b47 b48 b49 b50 b51 b52 b53 b54 b55 b56 b57 b58 b59 b60 b61 b62 b63)))).lanes := by
+  generalize hy : blockY b0 b1 b2 b3 b4 b5 b6 b7 b8 b9 b10 b11 b12 b13 b14 b15 b16 b17 b18 b19 b20 b21 b22 b23 b24 b25 b26 b27 b28 b29 b30 b31 b32 b33 b34 b35 b36 b37 b38 b39 b40 b41 b42 b43 b44 b45 b46 b47 b48 b49 b50 b51 b52 b53 b54 b55 b56 b57 b58 b59 b60 b61 b62 b63 = y
   have hw : (wordsBE [b0, b1, b2, b3, b4, b5, b6, b7, b8, b9, b10, b11, b12, b13, b14, b15, b16, b17, b18, b19, b20, b21, b22, b23, b24, b25, b26, b27, b28, b29, b30, b31, b32, b33, b34, b35, b36, b37, b38, b39, b40, b41, b42, b43, b44, b45, b46, b47, b48, b49, b50, b51, b52, b53, b54, b55, b56, b57, b58, b59, b60, b61, b62, b63]).reverse = y.lanes.reverse ++ [] := by
     subst hy; rfl
   unfold Sha256.schedule
   rw [hw, show (48 : Nat) = 16 + 16 + 16 from rfl, extend_add, extend_add, extend16, extend16, extend16]
   simp [List.reverse_append]
+
+/-- **the array `W` left by `SHA256_Transform_sse2` is the FIPS 180-4 message schedule** -/
+theorem sse2W_eq (block : Bytes) (h : block.length = 64) :
+    sse2W block = some (Sha256.schedule block) := by
+  refine bytes64 (fun b => sse2W b = some (Sha256.schedule b)) ?_ block h
+  intro b0 b1 b2 b3 b4 b5 b6 b7 b8 b9 b10 b11 b12 b13 b14 b15 b16 b17 b18 b19 b20 b21 b22 b23 b24 b25 b26 b27 b28 b29 b30 b31 b32 b33 b34 b35 b36 b37 b38 b39 b40 b41 b42 b43 b44 b45 b46 b47 b48 b49 b50 b51 b52 b53 b54 b55 b56 b57 b58 b59 b60 b61 b62 b63
+  simp only [sse2W, loadBlock_explicit, Option.map_some, schedule_explicit]
 
 theorem transformSse2_eq (H : Sha256.Regs) (block : Bytes) (h : block.length = 64) :
     transformSse2 H block = some (Sha256.compress H block) := by
@@ -729,6 +743,149 @@ theorem absorbSse2_eq (H : Sha256.Regs) (blocks : List Bytes) (h : ∀ b ∈ blo
   | nil => rfl
   | cons b rest ih =>
     simp only [absorbSse2, transformSse2_eq H b (h b (by simp)), List.foldl_cons]
+    exact ih _ (fun b' hb' => h b' (by simp [hb']))
+
+/-! ## SHA-NI -/
+
+theorem be32dec_128_eq (b0 b1 b2 b3 b4 b5 b6 b7 b8 b9 b10 b11 b12 b13 b14 b15 : UInt8) :
+    be32dec_128 [b0, b1, b2, b3, b4, b5, b6, b7, b8, b9, b10, b11, b12, b13, b14, b15] =
+      some ⟨be32 b0 b1 b2 b3, be32 b4 b5 b6 b7, be32 b8 b9 b10 b11, be32 b12 b13 b14 b15⟩ := by
+  simp [be32dec_128, mm_shuffle_epi8, lanesOfBytes, le32]
+
+/-- the SDM's round on `WK = W + K` is the FIPS 180-4 round -/
+theorem sdmRound_eq (r : Sha256.Regs) (k w : UInt32) : sdmRound r (w + k) = Sha256.round r k w := by
+  simp only [sdmRound, Sha256.round, Sha256.Regs.mk.injEq, and_true, true_and]
+  refine ⟨?_, ?_⟩ <;> ac_rfl
+
+/-- the register `ABEF` (`A` in the top lane) and `CDGH` of a set of working variables -/
+def abef (r : Sha256.Regs) : V4 := ⟨r.f, r.e, r.b, r.a⟩
+def cdgh (r : Sha256.Regs) : V4 := ⟨r.h, r.g, r.d, r.c⟩
+
+/-- `RND4` = four FIPS rounds on the packed working variables -/
+theorem rnd4_eq (r : Sha256.Regs) (w : V4) (k0 k1 k2 k3 : UInt32) :
+    rnd4 ⟨abef r, cdgh r⟩ w k0 k1 k2 k3 =
+      ⟨abef (Sha256.round (Sha256.round (Sha256.round (Sha256.round r k0 w.x0) k1 w.x1) k2 w.x2) k3 w.x3),
+       cdgh (Sha256.round (Sha256.round (Sha256.round (Sha256.round r k0 w.x0) k1 w.x1) k2 w.x2) k3 w.x3)⟩ := by
+  simp only [rnd4, sha256rnds2, abef, cdgh, mm_add_epi32, mm_srli_si128_8, V4.zip, sdmRound_eq]
+  rfl
+
+/-- `MSG4` of `sha256_shani.c` (`SHA256MSG1`, `PALIGNR`, `SHA256MSG2`) and `MSG4` of
+    `sha256_sse2.c` compute the same four words -/
+theorem msg4ni_eq (X0 X1 X2 X3 : V4) : msg4ni X0 X1 X2 X3 = msg4 X0 X1 X2 X3 := by
+  have ha : X0.x0 + Sha256.smallSigma0 X0.x1 + X2.x1 + Sha256.smallSigma1 X3.x2 =
+      Sha256.smallSigma1 X3.x2 + X2.x1 + Sha256.smallSigma0 X0.x1 + X0.x0 := by ac_rfl
+  have hb : X0.x1 + Sha256.smallSigma0 X0.x2 + X2.x2 + Sha256.smallSigma1 X3.x3 =
+      Sha256.smallSigma1 X3.x3 + X2.x2 + Sha256.smallSigma0 X0.x2 + X0.x1 := by ac_rfl
+  rw [msg4_lanes]
+  simp only [msg4ni, sha256msg1, sha256msg2, mm_add_epi32, mm_alignr_epi8_4, V4.zip, V4.mk.injEq, ha, hb,
+    true_and]
+  refine ⟨?_, ?_⟩ <;> ac_rfl
+
+/-- sixteen rounds over explicit constants and one group of sixteen schedule words -/
+def rounds16 (r : Sha256.Regs) (k : List UInt32) (y : Y4) : Sha256.Regs :=
+  (k.zip y.lanes).foldl (fun r kw => Sha256.round r kw.1 kw.2) r
+
+theorem rndmsgQuad_eq (r : Sha256.Regs) (y : Y4) (k0 k1 k2 k3 k4 k5 k6 k7 k8 k9 k10 k11 k12 k13 k14 k15 : UInt32) :
+    rndmsgQuad ⟨abef r, cdgh r⟩ y [k0, k1, k2, k3, k4, k5, k6, k7, k8, k9, k10, k11, k12, k13, k14, k15] =
+      some (⟨abef (rounds16 r [k0, k1, k2, k3, k4, k5, k6, k7, k8, k9, k10, k11, k12, k13, k14, k15] y),
+             cdgh (rounds16 r [k0, k1, k2, k3, k4, k5, k6, k7, k8, k9, k10, k11, k12, k13, k14, k15] y)⟩,
+            msgStep y) := by
+  simp only [rndmsgQuad, rnd4_eq, msg4ni_eq]
+  rfl
+
+theorem rndQuad_eq (r : Sha256.Regs) (y : Y4) (k0 k1 k2 k3 k4 k5 k6 k7 k8 k9 k10 k11 k12 k13 k14 k15 : UInt32) :
+    rndQuad ⟨abef r, cdgh r⟩ y [k0, k1, k2, k3, k4, k5, k6, k7, k8, k9, k10, k11, k12, k13, k14, k15] =
+      some ⟨abef (rounds16 r [k0, k1, k2, k3, k4, k5, k6, k7, k8, k9, k10, k11, k12, k13, k14, k15] y),
+            cdgh (rounds16 r [k0, k1, k2, k3, k4, k5, k6, k7, k8, k9, k10, k11, k12, k13, k14, k15] y)⟩ := by
+  simp only [rndQuad, rnd4_eq]
+  rfl
+
+theorem shaniK_eq : Gen.CpuPaths.shaniK = Sha256.K := by decide
+
+theorem length_lanes (y : Y4) : y.lanes.length = 16 := rfl
+
+/-- 64 rounds = four groups of sixteen -/
+theorem rounds_split (H : Sha256.Regs) (y a b c : Y4) :
+    Sha256.rounds H (y.lanes ++ a.lanes ++ b.lanes ++ c.lanes) =
+      rounds16 (rounds16 (rounds16 (rounds16 H (Sha256.K.take 16) y) ((Sha256.K.drop 16).take 16) a)
+        ((Sha256.K.drop 32).take 16) b) (Sha256.K.drop 48) c := by
+  have hk : Sha256.K = Sha256.K.take 16 ++ (Sha256.K.drop 16).take 16 ++ (Sha256.K.drop 32).take 16 ++
+      Sha256.K.drop 48 := by decide
+  unfold Sha256.rounds rounds16
+  conv => lhs; rw [hk]
+  rw [List.zip_append (by rw [List.length_append, List.length_append, List.length_append,
+        List.length_append, length_lanes, length_lanes, length_lanes]; decide),
+    List.zip_append (by rw [List.length_append, List.length_append, length_lanes, length_lanes]; decide),
+    List.zip_append (by rw [length_lanes]; decide),
+    List.foldl_append, List.foldl_append, List.foldl_append]
+
+theorem loadBlockNi_explicit (b0 b1 b2 b3 b4 b5 b6 b7 b8 b9 b10 b11 b12 b13 b14 b15 b16 b17 b18 b19 b20 b21 b22 b23 b24 b25 b26 b27 b28 b29 b30 b31 b32 b33 b34 b35 b36 b37 b38 b39 b40 b41 b42 b43 b44 b45 b46 b47 b48 b49 b50 b51 b52 b53 b54 b55 b56 b57 b58 b59 b60 b61 b62 b63 : UInt8) :
+    loadBlockNi [b0, b1, b2, b3, b4, b5, b6, b7, b8, b9, b10, b11, b12, b13, b14, b15, b16, b17, b18, b19, b20, b21, b22, b23, b24, b25, b26, b27, b28, b29, b30, b31, b32, b33, b34, b35, b36, b37, b38, b39, b40, b41, b42, b43, b44, b45, b46, b47, b48, b49, b50, b51, b52, b53, b54, b55, b56, b57, b58, b59, b60, b61, b62, b63] = some (blockY b0 b1 b2 b3 b4 b5 b6 b7 b8 b9 b10 b11 b12 b13 b14 b15 b16 b17 b18 b19 b20 b21 b22 b23 b24 b25 b26 b27 b28 b29 b30 b31 b32 b33 b34 b35 b36 b37 b38 b39 b40 b41 b42 b43 b44 b45 b46 b47 b48 b49 b50 b51 b52 b53 b54 b55 b56 b57 b58 b59 b60 b61 b62 b63) := by
+  simp only [loadBlockNi, List.length_cons, List.length_nil]
+  rw [if_neg (by decide)]
+  simp only [List.take_succ_cons, List.take_zero, List.drop_succ_cons, List.drop_zero, be32dec_128_eq]
+  rfl
+
+theorem stateIn_eq (H : Sha256.Regs) : stateIn H = ⟨abef H, cdgh H⟩ := rfl
+
+theorem stateOut_eq (H r : Sha256.Regs) : stateOut ⟨abef H, cdgh H⟩ ⟨abef r, cdgh r⟩ = Sha256.addRegs H r := by
+  simp only [stateOut, Sha256.addRegs, abef, cdgh, mm_add_epi32, mm_unpackhi_epi64, mm_unpacklo_epi64,
+    mm_shuffle_epi32, V4.zip, get0, get1, get2, get3, Sha256.Regs.mk.injEq]
+  refine ⟨?_, ?_, ?_, ?_, ?_, ?_, ?_, ?_⟩ <;> exact UInt32.add_comm _ _
+
+theorem K_quarters :
+    Sha256.K.take 16 = [0x428a2f98, 0x71374491, 0xb5c0fbcf, 0xe9b5dba5, 0x3956c25b, 0x59f111f1,
+      0x923f82a4, 0xab1c5ed5, 0xd807aa98, 0x12835b01, 0x243185be, 0x550c7dc3, 0x72be5d74, 0x80deb1fe,
+      0x9bdc06a7, 0xc19bf174] ∧
+    (Sha256.K.drop 16).take 16 = [0xe49b69c1, 0xefbe4786, 0x0fc19dc6, 0x240ca1cc, 0x2de92c6f,
+      0x4a7484aa, 0x5cb0a9dc, 0x76f988da, 0x983e5152, 0xa831c66d, 0xb00327c8, 0xbf597fc7, 0xc6e00bf3,
+      0xd5a79147, 0x06ca6351, 0x14292967] ∧
+    (Sha256.K.drop 32).take 16 = [0x27b70a85, 0x2e1b2138, 0x4d2c6dfc, 0x53380d13, 0x650a7354,
+      0x766a0abb, 0x81c2c92e, 0x92722c85, 0xa2bfe8a1, 0xa81a664b, 0xc24b8b70, 0xc76c51a3, 0xd192e819,
+      0xd6990624, 0xf40e3585, 0x106aa070] ∧
+    Sha256.K.drop 48 = [0x19a4c116, 0x1e376c08, 0x2748774c, 0x34b0bcb5, 0x391c0cb3, 0x4ed8aa4a,
+      0x5b9cca4f, 0x682e6ff3, 0x748f82ee, 0x78a5636f, 0x84c87814, 0x8cc70208, 0x90befffa, 0xa4506ceb,
+      0xbef9a3f7, 0xc67178f2] := by
+  decide
+
+/-- the sixteen `RNDMSG` lines = the 64 rounds over the schedule generated by `msgStep` -/
+theorem shaniRounds_eq (r : Sha256.Regs) (y : Y4) :
+    shaniRounds ⟨abef r, cdgh r⟩ y Sha256.K =
+      some ⟨abef (Sha256.rounds r (y.lanes ++ (msgStep y).lanes ++ (msgStep (msgStep y)).lanes ++
+              (msgStep (msgStep (msgStep y))).lanes)),
+            cdgh (Sha256.rounds r (y.lanes ++ (msgStep y).lanes ++ (msgStep (msgStep y)).lanes ++
+              (msgStep (msgStep (msgStep y))).lanes))⟩ := by
+  rw [rounds_split]
+  obtain ⟨hk0, hk1, hk2, hk3⟩ := K_quarters
+  unfold shaniRounds
+  rw [hk0, hk1, hk2, hk3]
+  rw [rndmsgQuad_eq, Option.bind_some]
+  rw [rndmsgQuad_eq, Option.bind_some]
+  rw [rndmsgQuad_eq, Option.bind_some]
+  rw [rndQuad_eq]
+
+/-- **`SHA256_Transform_shani` is the FIPS 180-4 compression function** (given the SDM semantics
+    of `SHA256RNDS2/MSG1/MSG2`, `PSHUFB`, `PALIGNR`, `PUNPCK*QDQ`, `PSHUFD`) -/
+theorem transformShani_eq (H : Sha256.Regs) (block : Bytes) (h : block.length = 64) :
+    transformShani H block = some (Sha256.compress H block) := by
+  refine bytes64 (fun b => transformShani H b = some (Sha256.compress H b)) ?_ block h
+  intro b0 b1 b2 b3 b4 b5 b6 b7 b8 b9 b10 b11 b12 b13 b14 b15 b16 b17 b18 b19 b20 b21 b22 b23 b24 b25 b26 b27 b28 b29 b30 b31 b32 b33 b34 b35 b36 b37 b38 b39 b40 b41 b42 b43 b44 b45 b46 b47 b48 b49 b50 b51 b52 b53 b54 b55 b56 b57 b58 b59 b60 b61 b62 b63
+  unfold transformShani Sha256.compress
+  rw [loadBlockNi_explicit, schedule_explicit, shaniK_eq, stateIn_eq]
+  simp only [Option.bind_eq_bind, Option.bind_some, shaniRounds_eq, stateOut_eq, Option.pure_def]
+
+theorem transformAccel_eq (p : ShaPath) (H : Sha256.Regs) (block : Bytes) (h : block.length = 64) :
+    transformAccel p H block = some (Sha256.compress H block) := by
+  cases p
+  · exact transformSse2_eq H block h
+  · exact transformShani_eq H block h
+
+theorem absorbAccel_eq (H : Sha256.Regs) (calls : List (ShaPath × Bytes)) (h : ∀ pb ∈ calls, pb.2.length = 64) :
+    absorbAccel H calls = some ((calls.map (·.2)).foldl Sha256.compress H) := by
+  induction calls generalizing H with
+  | nil => rfl
+  | cons pb rest ih =>
+    simp only [absorbAccel, transformAccel_eq pb.1 H pb.2 (h pb (by simp)), List.map_cons, List.foldl_cons]
     exact ih _ (fun b' hb' => h b' (by simp [hb']))
 
 end Percival.Proofs.CpuPaths
